@@ -399,6 +399,17 @@ def _coord_words(x: float) -> str:
     return s
 
 
+def _edge_user(data) -> Optional[dict]:
+    """the points the user gave for a curved edge (read from the data object of the depot, not from the edge item):
+    Arc -> its point, Spline / PolyLine -> the through points, listed from the first to the second corner of the slot"""
+    cls = type(data).__name__
+    if cls == "Arc":
+        return {"kind": "arc", "pts": [[float(x) for x in data.point.position]]}
+    if cls in ("Spline", "PolyLine"):
+        return {"kind": data.kind, "pts": [[float(x) for x in p] for p in data.curve.array.points]}
+    return None
+
+
 def _payload_words(edge, payload_toks: List[str]) -> List[str]:
     """what stands between the brackets of a curved edge, for the model: the *positions* the library's edge item
     prints (arc: third point; spline/polyLine: point_array) as exact rationals -- the model does the printing
@@ -478,6 +489,7 @@ def declaration(mesh, case: dict, after_calls_applied: bool) -> Dict[str, Any]:
                     "edges": [_edge_decl(cb, d, a, b) for d, a, b in slots],
                     "edge_kinds": [d.kind for d, _, _ in slots],
                     "edge_labels": [list(d.label) if d.kind == "project" else [] for d, _, _ in slots],
+                    "edge_user": [_edge_user(d) for d, _, _ in slots],
                 }
             )
         geo = entity.geometry
@@ -1073,6 +1085,7 @@ class C06(core.Check):
             bad("Edge.description:malformed", str(items)[:100])
             return out
         seen_pairs = set()
+        file_edges: Dict[frozenset, tuple] = {}
         for kw, a, b, payload in zip(items[::4], items[1::4], items[2::4], items[3::4]):
             ix = idx_list([a, b], "Edge.description")
             if ix is None or not isinstance(payload, tuple):
@@ -1082,11 +1095,46 @@ class C06(core.Check):
             if kw == "project":
                 used |= {x for x in payload[1] if isinstance(x, str)}
             pair = frozenset(ix)
+            file_edges.setdefault(pair, (kw, ix, payload))
             if pair in seen_pairs:
                 bad("EdgeList:edge-twice", str(sorted(pair)))
             seen_pairs.add(pair)
             if not any({hx[x], hx[y]} == set(pair) for hx in hexes for x, y in map(tuple, map(sorted, BM_EDGES))):
                 bad("EdgeList:edge-not-on-a-block-edge", str(sorted(pair)))
+        # the numbers of a curved edge: an arc the user gave by a point prints that point, a spline / polyLine the
+        # user's through points from the first written vertex to the second -- each to 8 decimals (vector_format)
+        SLOT_CORNERS = [(i, (i + 1) % 4) for i in range(4)] + [(4 + i, 4 + (i + 1) % 4) for i in range(4)] + [(i, i + 4) for i in range(4)]
+        declared: Dict[frozenset, list] = {}
+        bj = 0
+        for e in decl["entities"]:
+            for o in e["ops"]:
+                if o["deleted"]:
+                    continue
+                if bj < len(hexes):
+                    for (ca, cb_), eu in zip(SLOT_CORNERS, o.get("edge_user", [])):
+                        if eu is not None:
+                            declared.setdefault(frozenset((hexes[bj][ca], hexes[bj][cb_])), []).append((hexes[bj][ca], eu))
+                bj += 1
+        for pair, (kw, ix, payload) in file_edges.items():
+            cands = [(va, eu) for va, eu in declared.get(pair, []) if eu["kind"] == kw]
+            if not cands or len(pair) != 2:
+                continue  # edges of built-in shapes, origin / angle arcs, projections: C07 / C08
+            inner = payload[1]
+            groups = [inner] if kw == "arc" else [g[1] for g in inner if isinstance(g, tuple)]
+            ok_any = False
+            for va, eu in cands:
+                want_pts = eu["pts"] if (kw == "arc" or ix[0] == va) else eu["pts"][::-1]
+                want_txt = [[fmt8(x) for x in p] for p in want_pts]
+                if [list(g) for g in groups] == want_txt:
+                    ok_any = True
+            if not ok_any:
+                va, eu = cands[0]
+                want_pts = eu["pts"] if (kw == "arc" or ix[0] == va) else eu["pts"][::-1]
+                bad(
+                    f"Edge.description:{kw}-points",
+                    f"edge {ix[0]} {ix[1]}: the file lists {[' '.join(map(str, g)) for g in groups]}, the user's points (first to second vertex, %.8f) are "
+                    f"{[' '.join(fmt8(x) for x in p) for p in want_pts]}",
+                )
         for lab in sorted(used - set(geo)):
             owner = "user"
             for e in decl["entities"]:
